@@ -127,6 +127,46 @@ def fallible_events(f):
     return out
 
 
+INTERIOR = ("memo_map::MemoMap", "std::sync::poison::mutex::Mutex", "std::sync::Mutex", "std::sync::poison::rwlock::RwLock",
+            "core::cell::RefCell", "core::cell::Cell", "core::cell::UnsafeCell", "std::sync::once_lock::OnceLock",
+            "core::sync::atomic::", "core::cell::OnceCell")
+
+
+def check_shared_state(ctx, prog, root, prefix):
+    """U7: clones do not share mutable state.  What two clones of `root` share behind an `Arc` must be immutable
+    through `&self`; a container with interior mutability behind an Arc (e.g. the loader cache, a MemoMap filled
+    through `&self`) would let a template loaded by one clone appear in the other.  Returns the number of fields."""
+    import re as _re
+    n7 = 0
+    seen_adts = set()
+    work = [root]
+    while work:
+        a = work.pop()
+        if a in seen_adts:
+            continue
+        seen_adts.add(a)
+        ad = prog.adts.get(a)
+        if ad is None or not a.startswith(prefix):
+            continue
+        for v in ad["variants"]:
+            for fl in v["fields"]:
+                ts = fl["ty"]["s"]
+                n7 += 1
+                shared_mut = None
+                for m_ in _re.finditer(r"alloc::sync::Arc<([^<>(]+)", ts):
+                    inner = m_.group(1)
+                    if any(inner.startswith(x) for x in INTERIOR):
+                        shared_mut = inner
+                ctx.ob("C15.U7.clones-share-no-interior-mutable-state", "%s.%s" % (a.split("::")[-1], fl["name"]), shared_mut is None,
+                       "field `%s: %s` puts %s behind an Arc: cloned environments would share a container that is "
+                       "mutated through `&self` (a template loaded lazily by one clone becomes visible in the other)" % (
+                           fl["name"], ts[:120], shared_mut), ad.get("loc") and "%s:%s" % (ad["loc"]["f"], ad["loc"]["l"]) or "")
+                sub = fl["ty"].get("adt")
+                if sub and sub.startswith(prefix):
+                    work.append(sub)
+    return n7
+
+
 def run(ctx):
     ctx.explain("C15: ordering rule on fallible mutators (no mutation of self may precede a propagated failure), "
                 "pairing rule for the two template tiers, reviewed-table rule for process-global mutable state, "
@@ -175,7 +215,8 @@ def run(ctx):
             if not c.args:
                 continue
             tier = None
-            for o in flow.origins(f, c.args[0]):
+            for o in flow.origins(f, c.args[0], through_calls=lambda k: 0 if k.name.endswith(
+                    ("Arc::make_mut", "::deref", "::deref_mut", "::as_ref", "::as_mut", "::borrow", "::borrow_mut")) else None):
                 for t in TIERS:
                     if t in o.proj:
                         tier = t
@@ -188,6 +229,14 @@ def run(ctx):
                 ins.append((c, tier))
             elif last in ("remove", "clear"):
                 rem.append((c, tier, last))
+        # replacing a whole tier with a fresh value clears it as well
+        class _A:
+            def __init__(self, bb):
+                self.bb = bb
+        for d in flow.stores(f):
+            names = flow._proj_names(d.place)
+            if names and names[-1] in TIERS and d.place.get("l") == 1:
+                rem.append((_A(d.bb), names[-1], "clear"))
         for c, tier in ins:
             n2 += 1
             other = TIERS[1 - TIERS.index(tier)]
@@ -227,6 +276,13 @@ def run(ctx):
             ctx.ob("C15.U2.%s-acts-on-both-tiers" % f.path.split("::")[-1], f.path, tiers == set(TIERS) and every,
                    "tiers touched: %s; on every path: %s" % (sorted(tiers), every), f.loc)
     ctx.floor("C15.U2 tier insertions", n2, 3)
+
+    # ---- U7
+    n7 = check_shared_state(ctx, prog, ENV, "minijinja::")
+    ctx.floor("C15.U7 fields of Environment and the stores it owns", n7, 15)
+    sub7 = type(ctx)(ctx.prop, ctx.tier, ctx.repo)
+    check_shared_state(sub7, ctx.controls, "mjsa_controls::c15::SharedCache", "mjsa_controls::")
+    ctx.control("C15.U7", any(not o[2] for o in sub7.obligations))
 
     # ---- U3
     seen = set()
